@@ -281,10 +281,15 @@ fn task_message(message: &str, seconds: usize, max_cols: usize) -> String {
     };
     let mut out = message.to_owned();
     if out.len() + time_note.len() >= max_cols {
-        out.truncate(max_cols - time_note.len() - 3);
+        // Cut at a character boundary; a narrow terminal may leave no room at all.
+        let keep = truncate(&out, max_cols.saturating_sub(time_note.len() + 3)).len();
+        out.truncate(keep);
         out.push_str("...");
     }
     out.push_str(&time_note);
+    // On a terminal too narrow for even the time note, cut that too.
+    let keep = truncate(&out, max_cols).len();
+    out.truncate(keep);
     out
 }
 
